@@ -200,11 +200,13 @@ pub struct Interner<'a> {
     /// intern by `canon` (Box erased everywhere, VecDeque = Vec) as this harness did before the derive tier
     /// existed; kept only so that the derive tier can show that it tells the two apart
     pub legacy_identity: bool,
+    /// per id: the index of the source definition the entry is an instantiation of
+    pub def_of: Vec<Option<usize>>,
 }
 
 impl<'a> Interner<'a> {
     pub fn new(defs: &'a [Def]) -> Self {
-        Interner { defs, ids: HashMap::new(), types: vec![], insts: vec![], labels: vec![], legacy_identity: false }
+        Interner { defs, ids: HashMap::new(), types: vec![], insts: vec![], labels: vec![], legacy_identity: false, def_of: vec![] }
     }
 
     fn alloc(&mut self, key: String) -> Result<u32, u32> {
@@ -215,6 +217,7 @@ impl<'a> Interner<'a> {
         self.ids.insert(key, id);
         self.types.push(Value::Null);
         self.labels.push(None);
+        self.def_of.push(None);
         Ok(id)
     }
 
@@ -261,6 +264,7 @@ impl<'a> Interner<'a> {
             Src::BoxT(_) => unreachable!(),
             Src::App(di, args) => {
                 self.insts.push((*di, args.clone()));
+                self.def_of[id as usize] = Some(*di);
                 let d = self.defs[*di].clone();
                 let mut params = vec![];
                 for (i, (n, skipped)) in d.params.iter().enumerate() {
@@ -407,6 +411,16 @@ pub fn build(p: &Program) -> (Value, Vec<u32>) {
     let mut it = Interner::new(&p.defs);
     let roots: Vec<u32> = p.roots.iter().map(|r| it.intern(r)).collect();
     (it.finish(), roots)
+}
+
+/// the registry and, per entry, the source definition it instantiates (`None` for built-in shapes)
+pub fn build_labelled(p: &Program) -> (Value, Vec<Option<usize>>) {
+    let mut it = Interner::new(&p.defs);
+    for r in &p.roots {
+        it.intern(r);
+    }
+    let labels = it.def_of.clone();
+    (it.finish(), labels)
 }
 
 pub fn build_with_insts(p: &Program) -> (Value, Vec<(usize, Vec<Src>)>) {
